@@ -342,7 +342,11 @@ def rule_user_inputs(ctx):
     if iu is not None:
         tt = render(iu["body"]).replace(" ", "")
         pvi = sgrep.params(iu)
-        ctx.check(R, "FileStack::is_user_input", bool(pvi) and sgrep.has(iu["body"], "self.user_inputs.contains(__p)", sgrep.lets(iu["body"]), {"__p": pvi[0]}), tt, site(INC, iu))
+        from astlib import result_expr as _rx
+
+        rx = _rx(iu)
+        # the answer *is* membership in the set of user inputs (nothing is conjoined to it)
+        ctx.check(R, "FileStack::is_user_input", bool(pvi) and rx is not None and bool(sgrep.match(sgrep.pattern("self.user_inputs.contains(__p)"), rx, {"__p": pvi[0]}, sgrep.lets(iu["body"]))), tt, site(INC, iu))
     pf = find_fn(LIB, "parse_file")
     if pf is not None:
         t = render(pf["body"]).replace(" ", "")
@@ -364,7 +368,10 @@ def rule_user_inputs(ctx):
     if fi is not None:
         t = render(fi["body"]).replace(" ", "")
         pvi2 = sgrep.params(fi)
-        ctx.check(R, "FileLibrary::is_user_input", bool(pvi2) and sgrep.has(fi["body"], "self.user_inputs.contains(__p)", sgrep.lets(fi["body"]), {"__p": pvi2[0]}), t, site(FD, fi))
+        from astlib import result_expr as _rx2
+
+        rx2 = _rx2(fi)
+        ctx.check(R, "FileLibrary::is_user_input", bool(pvi2) and rx2 is not None and bool(sgrep.match(sgrep.pattern("self.user_inputs.contains(__p)"), rx2, {"__p": pvi2[0]}, sgrep.lets(fi["body"]))), t, site(FD, fi))
     pfs = find_fn(LIB, "parse_files")
     if pfs is not None:
         t = render(pfs["body"]).replace(" ", "")
